@@ -172,6 +172,42 @@ theorem zero_sized_droppable_leaf_cloned_and_dropped (id a s d p : Nat) (body : 
     ∧ callDropOf prog (.leaf id 0 a true) p body = [.drop p id] := by
   constructor <;> rfl
 
+/-- Which body `generate_drop_body` / `generate_clone_body` give the function of a type, from
+    their extracted runtime shortcut and arms, kind by kind and whatever the size: a type whose
+    runtime lookup succeeds (String, List, `CloneDrop` registered type — the droppable leaves of
+    the model, `dr = true`) gets the runtime function on the value itself in BOTH functions; a
+    record gets the field loop and an enum the switch in both (`drop_releases_leaves` and
+    `clone_creates_leaves` are about those); every other kind releases and creates nothing (the
+    clone function of a registered `Copy` type copies its bytes). The `ice!` arms are unreachable. -/
+theorem generated_bodies_decided (k : Kind) (cd : Bool) :
+    (dropBody.body (rtFound runtimeDropKinds k cd) k = .runtime
+      ↔ cloneBody.body (rtFound runtimeCloneKinds k cd) k = .runtime)
+    ∧ (dropBody.body (rtFound runtimeDropKinds k cd) k = .runtime ↔ cloneDropOf k cd = true)
+    ∧ (k = .record → dropBody.body (rtFound runtimeDropKinds k cd) k = .arm .recordLoop
+        ∧ cloneBody.body (rtFound runtimeCloneKinds k cd) k = .arm .recordLoop)
+    ∧ (k = .enum → dropBody.body (rtFound runtimeDropKinds k cd) k = .arm .enumSwitch
+        ∧ cloneBody.body (rtFound runtimeCloneKinds k cd) k = .arm .enumSwitch)
+    ∧ dropBody.body (rtFound runtimeDropKinds k cd) k ≠ .arm .ice
+    ∧ cloneBody.body (rtFound runtimeCloneKinds k cd) k ≠ .arm .ice
+    ∧ dropBody.body (rtFound runtimeDropKinds k cd) k ≠ .none
+    ∧ cloneBody.body (rtFound runtimeCloneKinds k cd) k ≠ .none := by
+  rw [dropBody_decided, cloneBody_decided]
+  cases k <;> cases cd <;> decide
+
+/-- The vtable a list gets for its element type (`Lowerer::call_runtime`): it holds a clone
+    function exactly when it holds a drop function, namely the generated clone / drop function of
+    the element type — for every element type tree, zero-sized ones included; and on a tree whose
+    `dr` bits are what the kinds say, exactly when the element has a droppable leaf. -/
+theorem list_vtable_clone_iff_drop (κ : Nat → Kind) (cd : Nat → Bool) (t : GTy) :
+    needsBy arms κ cd vtableClone.cond t = needsBy arms κ cd vtableDrop.cond t
+    ∧ vtableClone.fn = .clone ∧ vtableDrop.fn = .drop
+    ∧ (Kinded κ cd t = true → needsBy arms κ cd vtableClone.cond t = needsDrop t) := by
+  refine ⟨?_, by decide, by decide, fun h => needsBy_eq κ cd _ t h⟩
+  have h1 : vtableClone.cond = .clone := by decide
+  have h2 : vtableDrop.cond = .drop := by decide
+  rw [h1, h2]
+  exact needs_clone_iff_needs_drop κ cd t
+
 /-! ### Non-vacuity: zero-sized leaves
 
 `Ex.tz` is a registered `#[clone]` type of size 0 (leaf id 3); `Ex.exZ` is
@@ -191,6 +227,15 @@ example : dropped (dropTy prog (fun _ => 1) exZ 2000)
   clone_drop_balanced_of_copy (fun _ => 1) (fun _ => 1) exZ 1000 2000 (fun _ => rfl)
 
 example : (callActs prog.cloneCall ⟨0, true, true⟩).filter Act.isHost = [.runtime] := by decide
+
+/-- a registered `CloneDrop` type: runtime function in both generated bodies -/
+example : dropBody.body (rtFound runtimeDropKinds .runtime true) .runtime = .runtime
+    ∧ cloneBody.body (rtFound runtimeCloneKinds .runtime true) .runtime = .runtime := by decide
+
+/-- the element vtable of `List[Z]` has both functions, that of `List[u64]` neither -/
+example : needsBy arms (fun i => if i = 0 then .prim else if i = 2 then .string else .runtime)
+    (fun _ => true) vtableClone.cond exZ = true
+    ∧ needsBy arms (fun _ => .prim) (fun _ => false) vtableDrop.cond u64 = false := by decide
 
 /-- A `call_clone_function` that tests the size first ("zero-sized values have no storage, nothing
     to copy") and only then `needs_clone` is refuted by `R(Tz)`: the copy holds a token nobody
